@@ -198,6 +198,9 @@ func (fr *Frame) call(x *ssa.Call) Value {
 			it.FuncsEntered[callee]++
 			return it.leaf(fr, x, callee, args)
 		}
+		if r, ok := it.tryPowSummary(callee, args); ok {
+			return r
+		}
 		r := it.callFn(callee, args, inLoop)
 		if o, ok := it.Cfg.OriginOf[callee]; ok {
 			if t, isTop := r.(Top); isTop {
